@@ -463,6 +463,10 @@ Spans of submodels differ:
             **kwargs,
         )
 
+        # Initialise the iteration counter in case the loop below never runs
+        # (`max_iter=0`)
+        iteration = 0
+
         for iteration in range(1, max_iter + 1):
             previous_values = copy.deepcopy(current_values)
 
